@@ -175,6 +175,24 @@ int main(int argc, char** argv) {
     ada::url_search_params q("x=y&z"); q.reset(s);
     if (contents(q) != l) viol("init/reset", "reset(\"" + show(s) + "\") differs from construction", JObj().str("kind", "params").str("sub", "init").hexs("init", s).done(), s.size());
   });
+  // every escape candidate in an init string: "k=%XY&%XY=v" for EVERY ordered pair of byte values X, Y
+  {
+    uint64_t n1b = 0;
+    for (int x = 0; x < 256; x++)
+      for (int y = 0; y < 256; y++) {
+        if (int(n1b++ % ns) != sh) continue;
+        std::string esc = std::string("%") + char(x) + char(y);
+        std::string s = "k=" + esc + "&" + esc + "=v";
+        R.evaluations++; R.nontrivial++;
+        set_case(JObj().str("kind", "params").str("sub", "init").hexs("init", s).done());
+        ada::url_search_params p(s);
+        reflist::List l = reflist::construct(s);
+        R.outcome(hash64(list_json(l)));
+        if (contents(p) != l)
+          viol("init/escape-pair", "init=\"" + show(s) + "\" ada=" + list_show(contents(p)) + " model=" + list_show(l), JObj().str("kind", "params").str("sub", "init").hexs("init", s).done(), s.size());
+      }
+    R.count("init_escape_pairs", 65536);
+  }
   R.count("init_strings", n1);
   // ---- (ii) all list states up to the cap x all operations ----------------------------------------
   std::vector<reflist::Pair> pairs;
@@ -220,6 +238,41 @@ int main(int argc, char** argv) {
       if (contents(p) != m) viol("sort/order", "sort of " + list_show(l) + " gives " + list_show(contents(p)) + " model " + list_show(m), wit_ops(l, &so), len);
       n3++;
     }
+  }
+  // long lists: implementations switch algorithm with size (libstdc++: insertion sort up to 16 elements, merge/intro
+  // sort above), so stability and order are also enumerated above those thresholds: every key sequence over {a,b} of
+  // length 17 (quick) / 17..20 (thorough), and every periodic sequence (period <= 6 over 3 keys incl. an astral and a
+  // BMP-above-surrogate key) of lengths 16,17,31,32,33,64,65,129; values are the positions (stability witnesses)
+  {
+    uint64_t n3b = 0;
+    auto run_sort = [&](const reflist::List& l) {
+      R.evaluations++; R.nontrivial++;
+      Op so{4, "", ""};
+      ada::url_search_params p; for (auto& pr : l) p.append(pr.first, pr.second);
+      reflist::List m = l; p.sort(); reflist::sort(m);
+      R.outcome(hash64(list_json(m)));
+      if (contents(p) != m) { set_case(wit_ops(l, &so)); viol("sort/order-long", "sort of a " + std::to_string(l.size()) + "-pair list gives " + list_show(contents(p)).substr(0, 300) + " model " + list_show(m).substr(0, 300), wit_ops(l, &so), l.size()); }
+      n3b++;
+    };
+    for (int len = 17; len <= (T ? 20 : 17); len++)
+      for (uint32_t bits = 0; bits < (1u << len); bits++) {
+        if (int(ord++ % ns) != sh) continue;
+        reflist::List l;
+        for (int i = 0; i < len; i++) l.push_back({(bits >> i) & 1 ? "b" : "a", std::to_string(i)});
+        run_sort(l);
+      }
+    std::vector<std::string> PK = {"a", U10000, HW_STOP};
+    for (int len : {16, 17, 31, 32, 33, 64, 65, 129})
+      for (int per = 1; per <= 6; per++) {
+        Odometer od(std::vector<int>(per, int(PK.size())));
+        while (od.next()) {
+          if (int(ord++ % ns) != sh) continue;
+          reflist::List l;
+          for (int i = 0; i < len; i++) l.push_back({PK[od.idx[i % per]], std::to_string(i)});
+          run_sort(l);
+        }
+      }
+    R.count("sort_long_lists", n3b);
   }
   R.count("sort_lists", n3);
   // ---- (iv) round trip on arbitrary bytes ----------------------------------------------------------
